@@ -50,25 +50,27 @@ Section Thms.
                     ires ires_reset ires_resolve v_out v_in cfg HC Hcfg i o0 i0 h Ho Hi Hev Hsub)).
   Qed.
 
-  (* (a) the first PUBLISH handed to the encoder for a submitted QoS 1/2 publish: DUP = 0, a bound identifier, the
+  (* [submitted i (dlog h)]: operation id i was given to a submitted QoS 1/2 PUBLISH somewhere in the history; the machine
+     also proves that the submission precedes everything handed to the encoder for i (DeliveryWireLang.sub_q12).
+     (a) the first PUBLISH handed to the encoder for a submitted QoS 1/2 publish: DUP = 0, a bound identifier, the
      submitted content *)
   Theorem wire_first_transmission l1 e l2 pb :
-    dlog h = l1 ++ e :: l2 -> pub_of i e = Some pb -> submitted i l1 -> (forall x, In x l1 -> pub_of i x = None) ->
+    dlog h = l1 ++ e :: l2 -> pub_of i e = Some pb -> submitted i (dlog h) -> (forall x, In x l1 -> pub_of i x = None) ->
     pub_dup pb = false /\ 1 <= pub_pid pb <= 65535 /\ pub_qos pb <> 0 /\
     exists p0, In (DS i p0) l1 /\ pubq p0 = true /\ norm (Publish pb) = norm p0.
-  Proof. intros E. apply (first_transmission i l1 e l2 pb). rewrite <- E. exact dlog_accepted. Qed.
+  Proof. intros E. rewrite E. apply (first_transmission i l1 e l2 pb). rewrite <- E. exact dlog_accepted. Qed.
 
   (* (b) between two PUBLISH constructions of the operation a connection was closed, opened or the engine reset: never
      twice within one connection *)
   Theorem wire_no_second_publish l1 e1 lm e2 l2 pb1 pb2 :
-    dlog h = l1 ++ e1 :: lm ++ e2 :: l2 -> submitted i l1 -> pub_of i e1 = Some pb1 -> pub_of i e2 = Some pb2 ->
+    dlog h = l1 ++ e1 :: lm ++ e2 :: l2 -> submitted i (dlog h) -> pub_of i e1 = Some pb1 -> pub_of i e2 = Some pb2 ->
     exists x, In x lm /\ boundary x = true.
-  Proof. intros E. apply (no_second_publish i l1 e1 lm e2 l2 pb1 pb2). rewrite <- E. exact dlog_accepted. Qed.
+  Proof. intros E. rewrite E. apply (no_second_publish i l1 e1 lm e2 l2 pb1 pb2). rewrite <- E. exact dlog_accepted. Qed.
 
   (* (b) after a processed PUBREC that set the PUBREL slot of the operation, whatever is handed to the encoder for it is
      the PUBREL with the acknowledged identifier - on this connection and on later ones - until a CONNACK without session *)
   Theorem wire_pubrel_after_pubrec l1 e1 lm e2 l2 a p :
-    dlog h = l1 ++ e1 :: lm ++ e2 :: l2 -> submitted i l1 -> rec_of i e1 = Some a -> enc_of i e2 = Some p ->
+    dlog h = l1 ++ e1 :: lm ++ e2 :: l2 -> rec_of i e1 = Some a -> enc_of i e2 = Some p ->
     (forall x, In x lm -> sess_item x <> Some false) ->
     p = Pubrel (default_ack (ack_pid a)).
   Proof. intros E. apply (pubrel_after_pubrec i l1 e1 lm e2 l2 a p). rewrite <- E. exact dlog_accepted. Qed.
@@ -77,18 +79,18 @@ Section Thms.
      operation was handed to the encoder with the SAME identifier and completely written on an earlier connection; same
      content *)
   Theorem wire_retransmission l1 e l2 pb :
-    dlog h = l1 ++ e :: l2 -> submitted i l1 -> pub_of i e = Some pb -> pub_dup pb = true ->
+    dlog h = l1 ++ e :: l2 -> submitted i (dlog h) -> pub_of i e = Some pb -> pub_dup pb = true ->
     sp_now l1 /\ wrote i (pub_pid pb) l1 /\ pub_qos pb <> 0 /\
     exists p0, In (DS i p0) l1 /\ pubq p0 = true /\ norm (Publish pb) = norm p0.
-  Proof. intros E. apply (retransmission i l1 e l2 pb). rewrite <- E. exact dlog_accepted. Qed.
+  Proof. intros E. rewrite E. apply (retransmission i l1 e l2 pb). rewrite <- E. exact dlog_accepted. Qed.
 
   (* (d) after a CONNACK without session the next packet handed to the encoder for the operation is its PUBLISH with
      DUP = 0 (a restart, the identifier freshly bound) *)
   Theorem wire_restart l1 e1 lm e2 l2 p :
-    dlog h = l1 ++ e1 :: lm ++ e2 :: l2 -> submitted i l1 -> sess_item e1 = Some false -> enc_of i e2 = Some p ->
+    dlog h = l1 ++ e1 :: lm ++ e2 :: l2 -> submitted i (dlog h) -> sess_item e1 = Some false -> enc_of i e2 = Some p ->
     (forall x, In x lm -> enc_of i x = None) ->
     exists pb, p = Publish pb /\ pub_dup pb = false /\ 1 <= pub_pid pb <= 65535 /\ pub_qos pb <> 0.
-  Proof. intros E. apply (restart_after_no_session i l1 e1 lm e2 l2 p). rewrite <- E. exact dlog_accepted. Qed.
+  Proof. intros E. rewrite E. apply (restart_after_no_session i l1 e1 lm e2 l2 p). rewrite <- E. exact dlog_accepted. Qed.
 End Thms.
 
 (* (e) needs no premise at all *)
